@@ -5,6 +5,7 @@ import Deb822Verif.Model.DebLossy
 import Deb822Verif.Model.DebEdit
 import Deb822Verif.Model.DebWrap
 import Deb822Verif.Model.CtlWrap
+import Deb822Verif.Props.C07Trigger
 import Deb822Verif.Spec.DocGrammar
 import Deb822Verif.Spec.DocSDec
 import Deb822Verif.Spec.LossyCanon
@@ -254,6 +255,12 @@ def fmtCommaLines (_k v : Str) : Str :=
 def fmtSortItems (_k v : Str) : Str :=
   Text.join [',', ' '] (((Text.splitOn ',' v).map Text.trim).mergeSort strLe)
 
+/-- formatters whose output lines after the first start with a blank: `join(",\n ")`, `join(",\n\t")` -/
+def fmtCommaLinesSp (_k v : Str) : Str :=
+  Text.join [',', '\n', ' '] ((Text.splitOn ',' v).map Text.trim)
+def fmtCommaLinesTab (_k v : Str) : Str :=
+  Text.join [',', '\n', '\t'] ((Text.splitOn ',' v).map Text.trim)
+
 def decCfg (f : String) : Option (WrapCfg × String × String × String) :=
   match f.splitOn "/" with
   | [ind, imm, mx, ecmp, pcmp, fmt] => do
@@ -264,7 +271,8 @@ def decCfg (f : String) : Option (WrapCfg × String × String × String) :=
 
 def wrapOnce (level : String) (cfg : WrapCfg) (ecmp pcmp fmt : String) (root : DNode) : Option DNode :=
   let f : Option (Str → Str → Str) := if fmt == "i" then some (fun _ v => v) else if fmt == "u" then some fmtCommaLines
-    else if fmt == "s" then some fmtSortItems else none
+    else if fmt == "s" then some fmtSortItems else if fmt == "j" then some fmtCommaLinesSp
+    else if fmt == "t" then some fmtCommaLinesTab else none
   let ele : Option (DNode → DNode → Bool) :=
     if ecmp == "k" then some (fun a b => optLe (entryKey a) (entryKey b))
     else if ecmp == "v" then some (fun a b => strLe (entryValue a) (entryValue b)) else none
@@ -296,7 +304,8 @@ def wrapOnce (level : String) (cfg : WrapCfg) (ecmp pcmp fmt : String) (root : D
 /-- the formatter selected by the request, if any -/
 def fmtOf (fmt : String) : Option (Str → Str → Str) :=
   if fmt == "i" then some (fun _ v => v) else if fmt == "u" then some fmtCommaLines
-  else if fmt == "s" then some fmtSortItems else if fmt == "c" then some Ctl.formatField else none
+  else if fmt == "s" then some fmtSortItems else if fmt == "j" then some fmtCommaLinesSp
+  else if fmt == "t" then some fmtCommaLinesTab else if fmt == "c" then some Ctl.formatField else none
 
 /-- trigger of the open finding F-C07-10 (`Ctl.hashLine`): a formatter is active, it is called on some
     entry the request reformats, and a line after the first of its output starts with `#` -/
@@ -327,7 +336,9 @@ def handle (op : String) (args : List String) : Option String :=
     let s ← decStr t
     let (c, ecmp, pcmp, fmt) ← decCfg cfg
     let root := (parse s).tree
-    if fmt == "c" && Ctl.hasBigNumber root then pure "BIGNUM\t!F-C07-8" else
+    -- F-C07-8: BIGNUM exactly when a sort of the control formatter may meet the panic of `Version::cmp`
+    -- (`Props.C07More.ctlBig`; outside it the real formatter is the model's, `C07_formatField_exact`)
+    if fmt == "c" && Props.C07More.ctlBig level root then pure "BIGNUM\t!F-C07-8" else
     let obs := match wrapOnce level c ecmp pcmp fmt root with
       | none => "PANIC"
       | some t1 => match wrapOnce level c ecmp pcmp fmt t1 with
